@@ -28,7 +28,9 @@ fn main() {
         std::process::exit(2);
     }
     // panics are expected (caught) in some histories: keep stderr quiet
-    std::panic::set_hook(Box::new(|_| {}));
+    if std::env::var_os("SV_PANIC_MESSAGES").is_none() {
+        std::panic::set_hook(Box::new(|_| {}));
+    }
     let file = std::fs::File::open(&args[2]).expect("open histories");
     let out = std::io::stdout();
     let mut out = std::io::BufWriter::new(out.lock());
